@@ -69,7 +69,14 @@ fn gen_abstract_heavy(src: &mut Src) -> rawlib::RLib {
         let share = i > 0 && src.prob(1, 3);
         let num = if share { layers[i - 1].num } else { 5 * i as i16 + src.below(4) as i16 };
         let o = 40 * i as i16;
-        layers.push(RLayer { num, name: Some(format!("L{}", i)), purposes: vec![(o + src.below(3) as i16, RPurpose::Drawing), (o + 10 + src.below(3) as i16, RPurpose::Label), (o + 20 + src.below(3) as i16, RPurpose::Pin), (o + 30 + src.below(3) as i16, RPurpose::Obstruction)] });
+        let mut purposes = vec![(o + src.below(3) as i16, RPurpose::Drawing), (o + 10 + src.below(3) as i16, RPurpose::Label), (o + 20 + src.below(3) as i16, RPurpose::Pin), (o + 30 + src.below(3) as i16, RPurpose::Obstruction)];
+        // one purpose may be registered under two numbers (drawing as 20 and as 0, say): which number an
+        // export uses is the layer table's business, but it must be the same every time
+        if src.prob(1, 3) {
+            purposes.push((o + 5, RPurpose::Drawing));
+            purposes.push((o + 25, RPurpose::Pin));
+        }
+        layers.push(RLayer { num, name: Some(format!("L{}", i)), purposes });
     }
     let nc = src.usize_in(1, 3);
     let mut cells = vec![];
@@ -104,9 +111,9 @@ fn gen_abstract_heavy(src: &mut Src) -> rawlib::RLib {
 
 // Each conversion: description (choices) -> (transcript, number of keys in the largest unordered map on the path)
 fn conv_raw_to_gds(src: &mut Src) -> Result<(String, usize), String> {
-    let mut m = if src.bool() { gen_abstract_heavy(src) } else { rawlib::gen_rawlib(src, &RawGenOpts { abstracts: false, pico: true, annotations: false, nets_need_label_purpose: true, nonrect_nets: false, max_cells: 4, closed_polygons: false, abs_only_cells: true, shared_purpose_numbers: false }) };
+    let mut m = if src.bool() { gen_abstract_heavy(src) } else { rawlib::gen_rawlib(src, &RawGenOpts { abstracts: false, pico: true, annotations: false, nets_need_label_purpose: true, nonrect_nets: false, max_cells: 4, closed_polygons: false, abs_only_cells: true, shared_purpose_numbers: false, contact_near_bend: false }) };
     // a library may be nameless (every LEF import is)
-    if src.prob(1, 4) {
+    if src.prob(1, 4) || FORCE_NAMELESS.with(|c| c.get()) {
         m.name = String::new();
     }
     // only cells without a layout are exported from their abstract
@@ -119,8 +126,8 @@ fn conv_raw_to_gds(src: &mut Src) -> Result<(String, usize), String> {
     Ok((t, keys))
 }
 fn conv_raw_to_proto(src: &mut Src) -> Result<(String, usize), String> {
-    let mut m = if src.bool() { gen_abstract_heavy(src) } else { rawlib::gen_rawlib(src, &RawGenOpts { abstracts: true, pico: false, annotations: true, nets_need_label_purpose: false, nonrect_nets: true, max_cells: 4, closed_polygons: false, abs_only_cells: true, shared_purpose_numbers: false }) };
-    if src.prob(1, 4) {
+    let mut m = if src.bool() { gen_abstract_heavy(src) } else { rawlib::gen_rawlib(src, &RawGenOpts { abstracts: true, pico: false, annotations: true, nets_need_label_purpose: false, nonrect_nets: true, max_cells: 4, closed_polygons: false, abs_only_cells: true, shared_purpose_numbers: false, contact_near_bend: false }) };
+    if src.prob(1, 4) || FORCE_NAMELESS.with(|c| c.get()) {
         m.name = String::new();
     }
     let keys = m.cells.iter().filter_map(|c| c.abs.as_ref()).map(|a| a.blockages.len().max(a.ports.iter().map(|p| p.shapes.len()).max().unwrap_or(0))).max().unwrap_or(0);
@@ -145,6 +152,14 @@ fn conv_gds_to_raw(src: &mut Src) -> Result<(String, usize), String> {
 }
 fn conv_lef_raw_lef(src: &mut Src) -> Result<(String, usize), String> {
     let (mut lib, _) = crate::props::c16::gen_lib(src);
+    // one pin name may head several PIN statements (a supply rail at the top and at the bottom)
+    for m in lib.macros.iter_mut() {
+        if m.pins.len() >= 2 && src.prob(1, 4) {
+            let n = m.pins[0].name.clone();
+            let k = m.pins.len() - 1;
+            m.pins[k].name = n;
+        }
+    }
     // a LEF file may define a macro name twice; the importer keeps both, in file order
     if lib.macros.len() >= 2 && src.prob(1, 4) {
         let n = lib.macros[0].name.clone();
@@ -248,6 +263,10 @@ fn conv_tetris(src: &mut Src) -> Result<(String, usize), String> {
     };
     Ok((t, keys))
 }
+thread_local! {
+    /// set by the `across-a-second` sub-check: raw libraries are made nameless
+    static FORCE_NAMELESS: std::cell::Cell<bool> = const { std::cell::Cell::new(false) };
+}
 type Conv = fn(&mut Src) -> Result<(String, usize), String>;
 const CONVS: &[(&str, Conv)] = &[("raw-to-gds", conv_raw_to_gds), ("raw-to-proto", conv_raw_to_proto), ("gds-to-raw", conv_gds_to_raw), ("lef-raw-lef", conv_lef_raw_lef), ("tetris-to-raw-gds-proto", conv_tetris)];
 
@@ -288,6 +307,39 @@ fn repeat_case(name: &'static str, f: Conv) -> impl Fn(&mut Src, &mut Ctx) -> Re
         ctx.extra_evals(K_IN_PROCESS as u64 - 1);
         Ok(())
     }
+}
+
+/// The wall clock must not reach the output (outside the documented GDSII time stamps, which the
+/// transcript masks): each conversion is run twice, more than a second apart, once on a generated
+/// input as it is and once with the library made nameless.
+fn across_a_second_case(src: &mut Src, ctx: &mut Ctx) -> Result<(), String> {
+    let i = src.u64() as usize;
+    ctx.nontrivial(hash_of(&i));
+    ctx.label("every conversion run twice, more than a second apart");
+    // (conversion, nameless?, input, first transcript)
+    let mut firsts: Vec<(&'static str, Conv, bool, Vec<u32>, String)> = vec![];
+    let r = (|| -> Result<(), String> {
+        for (ci, (name, f)) in CONVS.iter().enumerate() {
+            for nameless in [false, true] {
+                let words = crate::engine::draw_vectors(crate::engine::env_seed(), &format!("c20-second-{}-{}-{}", i, ci, nameless), 1, 600).pop().unwrap_or_default();
+                FORCE_NAMELESS.with(|c| c.set(nameless));
+                let (t, _) = f(&mut Src::new(&words))?;
+                firsts.push((name, *f, nameless, words, t));
+            }
+        }
+        std::thread::sleep(std::time::Duration::from_millis(1100));
+        for (name, f, nameless, words, a) in &firsts {
+            FORCE_NAMELESS.with(|c| c.set(*nameless));
+            let (b, _) = f(&mut Src::new(words))?;
+            if *a != b {
+                return Err(format!("{}{}: converting the same input twice, 1.1 s apart, gave different results; {}", name, if *nameless { " (nameless library)" } else { "" }, crate::gen::gds::first_diff(a, &b)));
+            }
+        }
+        Ok(())
+    })();
+    FORCE_NAMELESS.with(|c| c.set(false));
+    ctx.extra_evals(2 * CONVS.len() as u64 * 2 - 1);
+    r
 }
 /// child-process side: emit the transcript's hash through the failure channel
 fn emit_case(f: Conv) -> impl Fn(&mut Src, &mut Ctx) -> Result<(), String> {
@@ -343,12 +395,16 @@ fn run(run: &mut Run) {
         let c = repeat_case(name, *f);
         run.explore(name, n, 900, &c);
     }
+    run.enumerate("across-a-second", run.tier.pick(1, 4), &across_a_second_case);
     for (name, f) in CONVS {
         let n = run.tier.pick(300, 2_000) as usize;
         cross_process(run, name, *f, n, 900);
     }
 }
 fn case(sub: &str) -> Option<Box<CaseFn<'static>>> {
+    if sub == "across-a-second" {
+        return Some(Box::new(across_a_second_case));
+    }
     for (name, f) in CONVS {
         if sub == *name {
             return Some(Box::new(repeat_case(name, *f)));
